@@ -97,6 +97,8 @@ Definition to_serial (y m d : Z) : outcome Z :=
 Definition wd_from_monday0 (rd : Z) : Z := (rd - 1) mod 7.   (* number_from_monday - 1 *)
 Definition wd_from_sunday0 (rd : Z) : Z := rd mod 7.         (* num_days_from_sunday *)
 
+(* FPanic: an abort of the evaluation; no model function returns it any more (see
+   CivilProofs.fn_date_total) — it stays so that the runner can still name that observation *)
 Inductive fres : Type := FNum (v : Z) | FErrValue | FErrNum | FPanic.
 
 Definition weekday_number (rd : Z) (return_type : Z) : fres :=
@@ -123,11 +125,15 @@ Definition fn_month (n : Z) : fres := match of_serial n with Ok (_, m, _) => FNu
 Definition fn_day (n : Z) : fres := match of_serial n with Ok (_, _, d) => FNum d | _ => FErrNum end.
 
 (* ---- DATE(year, month, day): fn_date + permissive_date_to_serial_number -------------------
-   Arguments are the already floored i32 values.  chrono's `date + Months` / `date + Days`
-   PANIC when the result leaves chrono's range; the code only range-checks afterwards. *)
+   Arguments are the already floored i32 values.  The code uses chrono's checked_add_months /
+   checked_sub_months / checked_add_days / checked_sub_days: when the intermediate date leaves
+   chrono's own year range the result is None and DATE returns the out-of-range error (#NUM!),
+   like every other range failure.  (`month - 1` / `day - 1` are i32 subtractions: at i32::MIN
+   the release build wraps to i32::MAX; the Z arithmetic below and the wrapped value both end in
+   None, i.e. #NUM!.) *)
 
 Definition add_months_jan1 (y md : Z) : option (Z * Z) :=
-  (* NaiveDate(y,1,1) +/- Months: year*12 + 0 + md, div_euclid/rem_euclid 12 *)
+  (* NaiveDate(y,1,1).checked_add/sub_months: year*12 + 0 + md, div_euclid/rem_euclid 12 *)
   let t := y * 12 + md in
   let y2 := t / 12 in
   let m2 := t mod 12 + 1 in
@@ -143,12 +149,12 @@ Definition fn_date (y m d : Z) : fres :=
   else if negb (chrono_year_ok y) then FErrNum
   else if negb (in_serial_range (serial_of_days (days_of_civil y 1 1))) then FErrNum
   else match add_months_jan1 y (m - 1) with
-       | None => FPanic
+       | None => FErrNum
        | Some (y2, m2) =>
          let rd2 := days_of_civil y2 m2 1 in
          if negb (in_serial_range (serial_of_days rd2)) then FErrNum
          else match add_days rd2 (d - 1) with
-              | None => FPanic
+              | None => FErrNum
               | Some rd3 =>
                 if negb (in_serial_range (serial_of_days rd3)) then FErrNum
                 else FNum (serial_of_days rd3)
